@@ -64,6 +64,147 @@ def _slot_stores(fi: FuncInfo) -> List[ast.Assign]:
             and any(isinstance(t, ast.Subscript) and not isinstance(t.slice, ast.Slice) for t in n.targets)]
 
 
+def _slot_storing_methods(p: Program) -> dict:
+    """{method name: FuncInfo} for the methods of the layer's value classes that store into a slot of something the
+    receiver holds (``self.container[self.index] = value``)"""
+    out = {}
+    for mn in ASSEMBLY_LAYER:
+        m = p.modules.get(mn)
+        if m is None:
+            continue
+        for ci in m.classes.values():
+            for nm, raw in ci.attrs.items():
+                if isinstance(raw, FuncInfo) and _slot_stores(raw) and raw.node.args.args:
+                    me = raw.node.args.args[0].arg
+                    if any(isinstance(t, ast.Subscript) and isinstance(t.value, ast.Attribute) and isinstance(t.value.value, ast.Name) and t.value.value.id == me
+                           for st in _slot_stores(raw) for t in st.targets):
+                        out[nm] = raw
+    return out
+
+
+def _stores_slots(p: Program, f: FuncInfo) -> bool:
+    if _slot_stores(f):
+        return True
+    via = _slot_storing_methods(p)
+    for n in ast.walk(f.node):
+        if isinstance(n, ast.Call) and isinstance(n.func, ast.Attribute) and n.func.attr in via and via[n.func.attr] is not f \
+                and not (isinstance(n.func.value, ast.Name) and n.func.value.id in ("self", "cls")):
+            return True
+    return False
+
+
+def citation_value_stores(p: Program) -> dict:
+    """{id(method): [layer functions that call it on an instance]} for the slot-storing methods of value classes of the
+    layer whose instances are built from a feature's citation list only (``_Citation(feature.qualifiers["citation"], i, ref)``)"""
+    cached = getattr(p, "_citation_value_stores", None)
+    if cached is not None:
+        return cached
+    from .loader import ClassInfo
+
+    out = {}
+    funcs = layer_functions(p)
+
+    def builds(f: FuncInfo, ci) -> List[ast.Call]:
+        hits = []
+        for n in ast.walk(f.node):
+            if isinstance(n, ast.Call):
+                try:
+                    v = p.resolve_expr(f.module, n.func)
+                except Exception:
+                    v = None
+                if v is ci:
+                    hits.append(n)
+        return hits
+
+    for nm, meth in _slot_storing_methods(p).items():
+        ci = meth.owner
+        if not isinstance(ci, ClassInfo):
+            continue
+        makers = [(f, c) for f in funcs for c in builds(f, ci)]
+        if not makers or not all(any(isinstance(x, ast.Constant) and x.value == "citation" for a in c.args + [k.value for k in c.keywords] for x in ast.walk(a))
+                                 for _, c in makers):
+            continue
+        maker_funcs = {id(f) for f, _ in makers}
+        callers = []
+        for f in funcs:
+            if f is meth:
+                continue
+            for n in ast.walk(f.node):
+                if not (isinstance(n, ast.Call) and isinstance(n.func, ast.Attribute) and n.func.attr == nm and isinstance(n.func.value, ast.Name)):
+                    continue
+                recv = n.func.value.id
+                # the receiver is bound from a maker (directly, or by iterating one)
+                from_maker = False
+                for b in ast.walk(f.node):
+                    src = None
+                    if isinstance(b, (ast.For, ast.comprehension)) and any(isinstance(x, ast.Name) and x.id == recv for x in ast.walk(b.target)):
+                        src = b.iter
+                    elif isinstance(b, ast.Assign) and any(isinstance(x, ast.Name) and x.id == recv for t in b.targets for x in ast.walk(t)):
+                        src = b.value
+                    if src is None:
+                        continue
+                    for c in ast.walk(src):
+                        if isinstance(c, ast.Call):
+                            g = None
+                            if isinstance(c.func, ast.Attribute) and isinstance(c.func.value, ast.Name) and c.func.value.id in ("self", "cls") and f.owner is not None:
+                                _, g = p.class_attr_def(f.owner, c.func.attr)
+                            elif isinstance(c.func, ast.Name):
+                                g = p.resolve_expr(f.module, c.func)
+                            if g is ci or (isinstance(g, FuncInfo) and id(g) in maker_funcs):
+                                from_maker = True
+                if from_maker and f not in callers:
+                    callers.append(f)
+        out[id(meth)] = callers
+    p._citation_value_stores = out
+    return out
+
+
+def cutter_check_function(p: Program) -> FuncInfo:
+    """the function every structured class consults before it is instantiated: refuses an undeclared (NotImplemented),
+    blunt or unknown cutter"""
+    cached = getattr(p, "_cutter_check", None)
+    if cached is not None:
+        return cached
+    hits = []
+    for mn, m in sorted(p.modules.items()):
+        if not mn.startswith("moclo.core"):
+            continue
+        funcs = list(m.functions.values()) + [v for ci in m.classes.values() for v in ci.attrs.values() if isinstance(v, FuncInfo) and v.module is m]
+        for f in funcs:
+            calls = {n.func.attr for n in ast.walk(f.node) if isinstance(n, ast.Call) and isinstance(n.func, ast.Attribute)}
+            ni = any(isinstance(n, ast.Compare) and any(isinstance(c, ast.Name) and c.id == "NotImplemented" for c in n.comparators) for n in ast.walk(f.node))
+            if ni and {"is_blunt", "is_unknown"} <= calls and f not in hits:
+                hits.append(f)
+    if len(hits) != 1:
+        raise AnalysisError("anchor vanished: the cutter check (NotImplemented / is_blunt / is_unknown) is not recognised: %s" % [f.qualname for f in hits])
+    p._cutter_check = hits[0]
+    return hits[0]
+
+
+def source_annotator(p: Program) -> FuncInfo:
+    """the function that marks a fragment with the 'source' feature naming the plasmid it was cut from"""
+    cached = getattr(p, "_source_annotator", None)
+    if cached is not None:
+        return cached
+    hits = []
+    for mn, m in sorted(p.modules.items()):
+        if not mn.startswith("moclo.core"):
+            continue
+        funcs = list(m.functions.values()) + [v for ci in m.classes.values() for v in ci.attrs.values() if isinstance(v, FuncInfo) and v.module is m]
+        for f in funcs:
+            makes = any(isinstance(n, ast.Call) and ast.unparse(n.func).endswith("SeqFeature")
+                        and any(k.arg == "type" and isinstance(k.value, ast.Constant) and k.value.value == "source" for k in n.keywords)
+                        for n in ast.walk(f.node))
+            appends = any(isinstance(n, ast.Call) and isinstance(n.func, ast.Attribute) and n.func.attr in ("append", "insert", "extend")
+                          and isinstance(n.func.value, ast.Attribute) and n.func.value.attr == "features" for n in ast.walk(f.node))
+            if makes and appends and f not in hits:
+                hits.append(f)
+    if len(hits) != 1:
+        raise AnalysisError("anchor vanished: the function adding the 'source' feature to a fragment is not recognised: %s" % [f.qualname for f in hits])
+    p._source_annotator = hits[0]
+    return hits[0]
+
+
 def citation_functions(p: Program) -> Tuple[FuncInfo, FuncInfo]:
     """(dereference, re-reference): the two functions of the assembly layer
     that store into the slots of a feature's citation list; the re-reference
@@ -72,7 +213,7 @@ def citation_functions(p: Program) -> Tuple[FuncInfo, FuncInfo]:
     cached = getattr(p, "_citation_functions", None)
     if cached is not None:
         return cached
-    cands = [f for f in layer_functions(p) if _slot_stores(f) and touches_citation(p, f)]
+    cands = [f for f in layer_functions(p) if _stores_slots(p, f) and touches_citation(p, f)]
     ref = [f for f in cands if any(isinstance(n, ast.Call) and isinstance(n.func, ast.Attribute) and n.func.attr == "index" for n in ast.walk(f.node))
            or any(isinstance(n, ast.Call) and isinstance(n.func, ast.Attribute) and n.func.attr == "setdefault" and n.args
                   and isinstance(n.args[0], ast.Constant) and n.args[0].value == "references" for n in ast.walk(f.node))]
@@ -152,6 +293,21 @@ def manager_phases(p: Program) -> dict:
     out = {}
     first = _callees(p, entry)
     second = [g for f in first for g in _callees(p, f)]
+    # a helper that merely strings several phases together (generate + annotate + re-reference) is not a phase: its
+    # callees stand in for it
+    def roles_of(f):
+        return [role for role, pred in preds.items() if _tree_mentions(p, f, pred)]
+
+    def flatten(level, depth=2):
+        res = []
+        for f in level:
+            if len(roles_of(f)) > 1 and depth > 0 and f is not entry:
+                res.extend(x for x in flatten(_callees(p, f), depth - 1) if x not in res)
+            elif f not in res:
+                res.append(f)
+        return res
+
+    first = flatten(first)
     for role, pred in preds.items():
         for level in (first, second):
             hits = []
